@@ -90,22 +90,25 @@ def parse_log_line(line, fmt):
                     raise ValueError("arp fields")
                 ev["ms"], ev["md"], ev["is"], ev["id"] = _mac(rest[0]), _mac(rest[1]), _ip(rest[2]), _ip(rest[3])
             else:
-                if len(rest) < 7 + TAIL_FIELDS[f[1]]:
+                # seven positional columns (MACs, IPs, transport, ports); what follows them is the layer's own
+                # business; an empty column or a placeholder ("-", "?") means "not known at this layer"
+                if len(rest) < 7:
                     raise ValueError("fields")
-                if rest[0]:
-                    ev["ms"] = _mac(rest[0])
-                if rest[1]:
-                    ev["md"] = _mac(rest[1])
-                if rest[2]:
-                    ev["is"] = _ip(rest[2])
-                if rest[3]:
-                    ev["id"] = _ip(rest[3])
-                if rest[4]:
-                    ev["tr"] = PROTO_NUM.get(rest[4], -1)
-                if rest[5]:
-                    ev["ps"] = int(rest[5])
-                if rest[6]:
-                    ev["pd"] = int(rest[6])
+                col = [("" if c in ("-", "?", "--") else c) for c in rest[:7]]
+                if col[0]:
+                    ev["ms"] = _mac(col[0])
+                if col[1]:
+                    ev["md"] = _mac(col[1])
+                if col[2]:
+                    ev["is"] = _ip(col[2])
+                if col[3]:
+                    ev["id"] = _ip(col[3])
+                if col[4]:
+                    ev["tr"] = PROTO_NUM.get(col[4], -1)
+                if col[5]:
+                    ev["ps"] = int(col[5])
+                if col[6]:
+                    ev["pd"] = int(col[6])
             return ev
         else:
             toks = line.split()
@@ -122,6 +125,7 @@ def parse_log_line(line, fmt):
             if not CONSOLE_RE.match(kv["ts"]):
                 raise ValueError("ts")
             ev = _blank(kv["proto"], kv["verb"])
+            kv = dict((k, v) for k, v in kv.items() if v not in ("", "-", "?"))
             if "mac_src" in kv:
                 ev["ms"] = _mac(kv["mac_src"])
             if "mac_dst" in kv:
@@ -136,12 +140,7 @@ def parse_log_line(line, fmt):
                 ev["ps"] = int(kv["port_src"])
             if "port_dst" in kv:
                 ev["pd"] = int(kv["port_dst"])
-            need = {"eth": ["eth_type"], "arp": ["op"], "ipv4": ["next_proto"], "ipv6": ["next_proto"],
-                    "icmpv4": ["icmp_type", "icmp_code"], "icmpv6": ["icmpv6_type", "icmpv6_code"],
-                    "tcp": ["flags", "seq", "ack"], "udp": []}[kv["proto"]]
-            for k in need:
-                if k not in kv:
-                    raise ValueError("missing " + k)
+            # which further keys a layer prints (eth_type, op, icmp_type, flags ...) is the format's business
             return ev
     except Exception:
         ev = _blank("?", "?")
